@@ -8,6 +8,10 @@
  *   events = comma list of  d<hex> (bytes arriving on fd 0)  |  v<pathhex> (file removed by someone else)
  * output line: P <uid> <havedir> <now> <files in readdir order: pathhex:datahex:mtime:atime> <events>
  *                <fd1 hex> <fd2 hex> <exit code> <maildir afterwards: pathhex:datahex,…> <chdir calls>
+ *
+ * prioq.c driven directly (the heap getlist() sorts the maildir with):
+ * stdin case:  H <ops>      ops = comma list of  i<dt> (prioq_insert, ids 0,1,2,…)  |  d (prioq_min + prioq_delmin)
+ * output line: H <ops> <removed by the d ops: dt:id | e (heap was empty)> <array afterwards: dt:id,…> <full drain: dt:id,…>
  */
 #define _GNU_SOURCE
 #include "hcommon.h"
@@ -159,6 +163,46 @@ static void one(int uid, int havedir, mfile *f, int nf) {
   fprintf(h_out, " %d\n", n_chdir);
 }
 
+/* ---- prioq.c driven directly ---- */
+typedef struct { char kind; long dt; } hop;
+static void heap_case(hop *ops, int nops) {
+  static prioq q; struct prioq_elt pe; unsigned long id = 0; int first;
+  q.len = 0;
+  fputs("H ", h_out);
+  if (!nops) fputc('-', h_out);
+  for (int i = 0; i < nops; i++) {
+    if (i) fputc(',', h_out);
+    if (ops[i].kind == 'i') fprintf(h_out, "i%ld", ops[i].dt); else fputc('d', h_out);
+  }
+  fputc(' ', h_out); first = 1;
+  for (int i = 0; i < nops; i++) {
+    if (ops[i].kind == 'i') { pe.dt = ops[i].dt; pe.id = id++; if (!prioq_insert(&q, &pe)) exit(3); continue; }
+    if (!first) fputc(',', h_out);
+    first = 0;
+    if (prioq_min(&q, &pe)) fprintf(h_out, "%ld:%lu", (long)pe.dt, pe.id); else fputc('e', h_out);
+    prioq_delmin(&q);
+  }
+  if (first) fputc('-', h_out);
+  fputc(' ', h_out);
+  if (!q.p || !q.len) fputc('-', h_out);
+  else for (unsigned int k = 0; k < q.len; k++) fprintf(h_out, "%s%ld:%lu", k ? "," : "", (long)q.p[k].dt, q.p[k].id);
+  fputc(' ', h_out); first = 1;
+  while (prioq_min(&q, &pe)) { fprintf(h_out, "%s%ld:%lu", first ? "" : ",", (long)pe.dt, pe.id); first = 0; prioq_delmin(&q); }
+  if (first) fputc('-', h_out);
+  fputc('\n', h_out);
+}
+
+static void heap_stdin(char *ops_s) {
+  static hop ops[4096]; int n = 0;
+  if (strcmp(ops_s, "-"))
+    for (char *p = ops_s; p && *p && n < 4096; ) {
+      char *e = strchr(p, ','); if (e) *e = 0;
+      if (*p == 'i') { ops[n].kind = 'i'; ops[n].dt = atol(p + 1); n++; } else if (*p == 'd') { ops[n].kind = 'd'; ops[n].dt = 0; n++; }
+      p = e ? e + 1 : 0;
+    }
+  heap_case(ops, n);
+}
+
 /* ---- case construction ---- */
 static unsigned char arena[1 << 20]; static size_t arena_n;
 static unsigned char *keep(const void *p, size_t n) { unsigned char *r = arena + arena_n; memcpy(r, p, n); arena_n += n; return r; }
@@ -233,13 +277,14 @@ static int population(int k, mfile *f, int *nmsg) {
 
 static const char *lineset[] = { "", ".", "..", ".x", "Subject: hi", "a\r", "x", "\r", "...", "From me" };
 static int random_population(mfile *f, int *nmsg) {
-  int nf = h_below(8) == 0 ? 6 + h_below(7) : h_below(5);
-  int distinct = h_below(3) != 0, n = 0; *nmsg = 0;
+  int big = h_below(40) == 0;      /* now and then a big maildir (distinct mtimes): deeper heaps in getlist() */
+  int nf = big ? 20 + h_below(30) : h_below(8) == 0 ? 6 + h_below(7) : h_below(5);
+  int distinct = big || h_below(3) != 0, n = 0; *nmsg = 0;
   for (int i = 0; i < nf; i++) {
     char path[100], data[2000]; size_t dn = 0;
     int innew = h_below(2);
     snprintf(path, sizeof path, innew ? "new/%d.%u" : (h_below(3) ? "cur/%d.%u:2,%s" : "cur/%d.%u"), 1000 + i, h_below(1000), h_below(2) ? "S" : "");
-    int nl = h_below(7);
+    int nl = big ? h_below(3) : h_below(7);
     for (int l = 0; l < nl; l++) {
       const char *s = lineset[h_below(10)]; size_t sl = strlen(s);
       memcpy(data + dn, s, sl); dn += sl;
@@ -266,7 +311,9 @@ static void stdin_cases(void) {
   static char line[1 << 20]; static mfile f[64]; static unsigned char tmp[1 << 18];
   while (fgets(line, sizeof line, stdin)) {
     int uid, havedir; char *fs, *es;
-    char *tok = strtok(line, " \n"); if (!tok) continue; uid = atoi(tok);
+    char *tok = strtok(line, " \n"); if (!tok) continue;
+    if (!strcmp(tok, "H")) { tok = strtok(0, " \n"); if (tok) heap_stdin(tok); continue; }
+    uid = atoi(tok);
     tok = strtok(0, " \n"); if (!tok) continue; havedir = atoi(tok);
     fs = strtok(0, " \n"); es = strtok(0, " \n"); if (!fs || !es) continue;
     ev_reset();
@@ -386,6 +433,32 @@ int main(int argc, char **argv) {
         }
       }
       one(1000, 1, f, nf);
+    }
+
+    /* (4) prioq.c directly: every insertion order of up to 6 entries over 4 time stamps, drained;
+       then seeded random histories of inserts and delmins (up to 400 operations, few or many ties) */
+    {
+      static hop ops[4096];
+      for (int len = 0; len <= 6; len++) {
+        uint64_t total = 1; for (int i = 0; i < len; i++) total *= 4;
+        for (uint64_t k = 0; k < total; k++, id++) {
+          if ((int)(id % nshards) != shard) continue;
+          uint64_t v = k; for (int i = 0; i < len; i++) { ops[i].kind = 'i'; ops[i].dt = 100 + (long)(v & 3); v >>= 2; }
+          heap_case(ops, len);
+        }
+      }
+      int nheap = nrandom / 20;
+      for (int r = 0; r < nheap; r++) {
+        if ((r % nshards) != shard) continue;
+        int n = h_below(4) == 0 ? 100 + h_below(300) : 1 + h_below(40);
+        int range = h_below(3) == 0 ? 3 : h_below(2) ? 50 : 1000000;
+        int pdel = h_below(3) == 0 ? 0 : 1 + h_below(4);      /* 0: inserts only, as maildir_scan does */
+        for (int i = 0; i < n; i++) {
+          if (pdel && h_below(10) < (uint32_t)pdel) { ops[i].kind = 'd'; ops[i].dt = 0; }
+          else { ops[i].kind = 'i'; ops[i].dt = 999000000L + (long)h_below(range); }
+        }
+        heap_case(ops, n);
+      }
     }
   }
 done:
